@@ -13,11 +13,20 @@ Inductive value :=
 | VInt (z : Z) | VBool (b : bool) | VStr (s : string) | VNone
 | VList (l : list value) | VTuple (l : list value) | VRange (a b s : Z)
 | VExc (cls : string) (args : list value)
-| VObj (cls : string) (addr : nat).
+| VObj (mro : list string) (addr : nat).
+(** [VObj mro addr]: a reference to the object at [addr] of the heap; the reference carries the
+    linearisation of the object's class (the class itself first, then its ancestors in the order
+    in which attributes are looked up: depth first, left to right, a builtin exception class
+    followed by its builtin ancestors), so that [isinstance] /
+    [except C] / [handle err: C] are decided on the value alone. *)
 
 Definition unsupported : string := "<unsupported>"%string.
 Definition out_of_fuel : string := "<fuel>"%string.
 Definition exc (cls : string) : value := VExc cls [].
+(** an exception raised by the interpreter itself (division by zero, index out of range, missing
+    attribute): its class is modelled, the text of its message is not - the argument below has no
+    [repr], so printing such an exception is [unsupported] *)
+Definition rt_exc (cls : string) : value := VExc cls [VExc "<message>"%string []].
 Definition unsup {X} : X + value := inr (exc unsupported).
 Definition is_internal (x : value) : bool :=
   match x with VExc c _ => String.eqb c unsupported || String.eqb c out_of_fuel | _ => false end.
@@ -97,15 +106,15 @@ Definition sbin (o : sop) (x y : value) : value + value :=
   | OAdd, VList a, VList b => inl (VList (a ++ b))
   | OSub, VInt a, VInt b => inl (VInt (a - b))
   | OMul, VInt a, VInt b => inl (VInt (a * b))
-  | OFDiv, VInt a, VInt b => if b =? 0 then inr (exc "ZeroDivisionError") else inl (VInt (a / b))
-  | OMod, VInt a, VInt b => if b =? 0 then inr (exc "ZeroDivisionError") else inl (VInt (a mod b))
+  | OFDiv, VInt a, VInt b => if b =? 0 then inr (rt_exc "ZeroDivisionError") else inl (VInt (a / b))
+  | OMod, VInt a, VInt b => if b =? 0 then inr (rt_exc "ZeroDivisionError") else inl (VInt (a mod b))
   | OPow, VInt a, VInt b => if (0 <=? b) && (b <=? 64) then inl (VInt (a ^ b)) else unsup
   | OBAnd, VInt a, VInt b => inl (VInt (Z.land a b))
   | OBOr, VInt a, VInt b => inl (VInt (Z.lor a b))
   | OBXor, VInt a, VInt b => inl (VInt (Z.lxor a b))
   | OShl, VInt a, VInt b =>
-      if b <? 0 then inr (exc "ValueError") else if b <=? 256 then inl (VInt (Z.shiftl a b)) else unsup
-  | OShr, VInt a, VInt b => if b <? 0 then inr (exc "ValueError") else inl (VInt (Z.shiftr a b))
+      if b <? 0 then inr (rt_exc "ValueError") else if b <=? 256 then inl (VInt (Z.shiftl a b)) else unsup
+  | OShr, VInt a, VInt b => if b <? 0 then inr (rt_exc "ValueError") else inl (VInt (Z.shiftr a b))
   | OEq, _, _ => match veq x y with Some b => inl (VBool b) | None => unsup end
   | ONeq, _, _ => match veq x y with Some b => inl (VBool (negb b)) | None => unsup end
   | OLt, VInt a, VInt b => inl (VBool (a <? b))
@@ -187,7 +196,8 @@ Fixpoint shows (l : list value) : option (list string) :=
 (** ** Exception classes of the fragment and their hierarchy *)
 Definition builtin_exceptions : list string :=
   ["Exception"; "ValueError"; "ZeroDivisionError"; "TypeError"; "IndexError"; "KeyError";
-   "ArithmeticError"; "LookupError"; "RuntimeError"; "AssertionError"; "StopIteration"]%string.
+   "ArithmeticError"; "LookupError"; "RuntimeError"; "AssertionError"; "StopIteration";
+   "AttributeError"]%string.
 Definition is_builtin_exception (s : string) : bool := existsb (String.eqb s) builtin_exceptions.
 
 Definition exc_parent (s : string) : option string :=
@@ -208,6 +218,29 @@ Definition exc_isa (cls target : string) : bool :=
                     end
      | None => false
      end.
+
+(** the builtin ancestors of a builtin exception class, the class first *)
+Fixpoint exc_up (n : nat) (s : string) : list string :=
+  s :: match n with
+       | O => []
+       | S n' => match exc_parent s with Some p => exc_up n' p | None => [] end
+       end.
+Definition exc_ancestors (s : string) : list string := exc_up 3 s.
+
+(** objects: the class linearisation carried by the reference *)
+Definition mro_isa (mro : list string) (target : string) : bool := existsb (String.eqb target) mro.
+Definition mro_is_exception (mro : list string) : bool := existsb is_builtin_exception mro.
+Fixpoint no_dup (l : list string) : bool :=
+  match l with
+  | [] => true
+  | x :: r => negb (existsb (String.eqb x) r) && no_dup r
+  end.
+(** names the models do not interpret as attributes (dunder names; name mangling) *)
+Definition dunder_name (s : string) : bool :=
+  match s with
+  | String a (String b _) => Ascii.eqb a "_"%char && Ascii.eqb b "_"%char
+  | _ => false
+  end.
 
 (** ** Variables *)
 Definition store := list (string * value).
